@@ -7,28 +7,60 @@ RULE = ("cases = every single-rooted table up to the bound: every topology with 
         "from the id pools (contiguous, 1-based, scattered) x {table form, file form, tree form}; each with one extra per-node column; "
         "non-trivial = at least 3 rows and the input is not already sorted; distinct by (op, ids, topology)")
 COLS = ["type", "x", "y", "z", "r", "e"]
+FRAC = 0.1234567890123          # enc 1: float64 columns whose values no float32 can hold
+
+
+def enc_of(c):
+    """how abstract column values are stored: 0 = float32 as the constructors make them, 1 = float64 columns with full-precision values
+    (table and tree forms only; a file is read into the library's own column types)"""
+    return 0 if c["op"] == "read_sorted" else lib.vid(c) % 3 == 2
+
+
+def conc(v, k, enc):
+    if k == "type":
+        return int(v)
+    if k == "e" and v == -1:
+        return float("nan")          # a missing value in the extra column
+    return float(v) * 8.0 + FRAC if enc else float(v)
+
+
+def column(c, j, k, enc):
+    vals = [conc(row[j], k, enc) for row in c["cols"]]
+    return np.array(vals, dtype=np.int32 if k == "type" else (np.float64 if enc else np.float32))
+
+
+def absv(x, k, enc):
+    """concrete value -> abstract integer (exactly; -99999 if it is not the image of one)"""
+    if k == "type":
+        return int(x)
+    x = float(x)
+    if x != x or (k == "e" and x == -1.0):
+        return -1                    # missing: NaN in tables and trees, the literal -1 in files (the line grammar has no NaN)
+    v = (x - FRAC) / 8.0 if enc else x
+    r = int(round(v))
+    return r if conc(r, k, enc) == x else -99999
 
 
 def mk_df(c):
     import pandas as pd
-    cols = c["cols"]
+    enc = enc_of(c)
     d = {"id": np.array(c["ids"], dtype=np.int32)}
     for j, k in enumerate(COLS):
-        d[k] = np.array([row[j] for row in cols], dtype=np.int32 if k == "type" else np.float32)
+        d[k] = column(c, j, k, enc)
     d["pid"] = np.array(c["pids"], dtype=np.int32)
     df = pd.DataFrame(d)
     return df[["id", "type", "x", "y", "z", "r", "pid", "e"]]
 
 
-def proj_df(df):
-    rcols = [[int(round(float(df[k].iloc[i]))) for k in COLS] for i in range(len(df))]
+def proj_df(df, enc):
+    rcols = [[absv(df[k].iloc[i], k, enc) for k in COLS] for i in range(len(df))]
     mp = [row[1] - 101 for row in rcols]
     return mp, [int(v) for v in df["id"]], [int(v) for v in df["pid"]], rcols
 
 
-def proj_tree(t):
+def proj_tree(t, enc):
     n = len(t.id())
-    rcols = [[int(round(float(t.ndata[k][i]))) for k in COLS] for i in range(n)]
+    rcols = [[absv(t.ndata[k][i], k, enc) for k in COLS] for i in range(n)]
     return [row[1] - 101 for row in rcols], [int(v) for v in t.id()], [int(v) for v in t.pid()], rcols
 
 
@@ -36,22 +68,27 @@ def execute(c):
     from swcgeom.core import Tree, sort_tree
     from swcgeom.core.swc_utils import sort_nodes, sort_nodes_, read_swc, is_sorted
     op = c["op"]
+    enc = enc_of(c)
     if op == "sort_tree":
         cols = c["cols"]
-        kw = {k: np.array([row[j] for row in cols], dtype=np.int32 if k == "type" else np.float32) for j, k in enumerate(COLS)}
+        kw = {k: column(c, j, k, 0) for j, k in enumerate(COLS)}
         t = Tree(len(cols), id=np.array(c["ids"], dtype=np.int32), pid=np.array(c["pids"], dtype=np.int32), **kw)
+        if enc:
+            for j, k in enumerate(COLS):
+                if k != "type":
+                    t.ndata[k] = column(c, j, k, 1)         # the tree holds float64 columns (as after a user-supplied affine matrix)
         snap = lib.snapshot(t)
         r = sort_tree(t)
-        mp, rids, rpids, rcols = proj_tree(r)
+        mp, rids, rpids, rcols = proj_tree(r, enc)
         s = is_sorted((r.id(), r.pid()))
         r2 = sort_tree(r)
-        mp2, rids2, rpids2, rcols2 = proj_tree(r2)
+        mp2, rids2, rpids2, rcols2 = proj_tree(r2, enc)
         ch = lib.changed(t, snap)
     else:
         df = mk_df(c)
         before = df.copy()
         if op == "sort_table":
-            if c["cid"] % 2:
+            if lib.vid(c) % 2:
                 r = sort_nodes(df)
             else:
                 r = df.copy(); sort_nodes_(r)
@@ -59,12 +96,12 @@ def execute(c):
             text = "# id type x y z r pid e\n" + "".join(
                 "%d %d %s %s %s %s %d %s\n" % (c["ids"][k], row[0], row[1], row[2], row[3], row[4], c["pids"][k], row[5])
                 for k, row in enumerate(c["cols"]))
-            src = io.StringIO(text) if c["cid"] % 2 else io.BytesIO(text.encode())
+            src = io.StringIO(text) if lib.vid(c) % 2 else io.BytesIO(text.encode())
             r, _ = read_swc(src, extra_cols=["e"], sort_nodes=True)
-        mp, rids, rpids, rcols = proj_df(r)
+        mp, rids, rpids, rcols = proj_df(r, enc)
         s = is_sorted((r["id"].to_numpy(), r["pid"].to_numpy()))
         r2 = sort_nodes(r)
-        mp2, rids2, rpids2, rcols2 = proj_df(r2)
+        mp2, rids2, rpids2, rcols2 = proj_df(r2, enc)
         # second-generation map is relative to the first result's rows
         ch = 0 if df.equals(before) else 1
     # map2: new row -> row of the first result (via the same tag): compose through mp
@@ -98,7 +135,7 @@ def free_cases(ctx, count, nmax):
             ids = rng.sample(range(0, 5 * n), n)
         Q = [(-1 if par[order[k]] == -1 else row_of[par[order[k]]]) for k in range(n)]
         pids = [(-1 if q == -1 else ids[q]) for q in Q]
-        cols = [[1 + (k + 1) % 3, 100 + k + 1, (7 * (k + 1)) % 5, (3 * (k + 1)) % 4, 1 + (k + 1) % 2, 300 + 2 * (k + 1)] for k in range(n)]
+        cols = [[1 + (k + 1) % 3, 100 + k + 1, (7 * (k + 1)) % 5, (3 * (k + 1)) % 4, 1 + (k + 1) % 2, (-1 if rng.random() < 0.3 else 300 + 2 * (k + 1))] for k in range(n)]
         out.append({"op": op, "ids": ids, "Q": Q, "pids": pids, "cols": cols})
     return out
 
@@ -110,7 +147,8 @@ def run(ctx):
     fc = free_cases(ctx, 200 if ctx.tier == "quick" else 3000, 15 if ctx.tier == "quick" else 60)
     p = ctx.write_cases("free", fc)
     ctx.run_cases("free", fc, p, execute, "Judge_SortNodes", keyfn, nontrivial)
-    ctx.assumptions += ["row identity is recovered from a unique tag in the x column; every other column (type,y,z,r,extra) is compared by TLC"]
+    ctx.assumptions += ["abstract column values are stored exactly (float32 integers, or float64 v*8+0.1234567890123) and recovered exactly; a value that is not the image of an abstract value is reported as -99999",
+                        "row identity is recovered from a unique tag in the x column; every other column (type,y,z,r,extra) is compared by TLC"]
     return ctx.finish(rule=RULE)
 
 
